@@ -39,7 +39,9 @@ let kind_of (s : Stdlib.String.t) : opk =
   | ["c"; n] -> KCompress (bits_of n) | ["cy"] -> KCompressYUV | ["ey"] -> KEncodeYUV
   | ["h"; f] -> KHeader (b f.[0], b f.[1])
   | ["d"; n; f] -> KDecompress (bits_of n, b f.[0], b f.[1], b f.[2])
-  | ["dy"; f] -> KDecompressYUV (b f.[0])
+  | ["dy"; f] -> KDecompressYUV (b f.[0], b f.[1])
+  | ["ldy"; f] -> KLegacyDecompressYUV (b f.[0])
+  | ["li"; n] -> KLoadImage (bits_of n) | ["si"; n] -> KSaveImage (bits_of n)
   | ["uy"; f] -> KDecodeYUV (b f.[0])
   | ["gi"] -> KGetICC | ["tb"] -> KTransformBufSize
   | ["t"; f] -> KTransform (b f.[0], b f.[1])
